@@ -17,7 +17,7 @@ import time
 from collections import Counter
 from typing import Any, Dict, List, Optional, Tuple
 
-from bounded.common import F, K, N, U, make_cer, pmap, run as run_coro, set_cer
+from bounded.common import N, make_cer, pmap, run as run_coro, set_cer
 
 MAXV = 5
 
